@@ -102,7 +102,7 @@ pub struct Probe<T> {
 fn probe<T: El, C: PositiveLength, P: Maximum<T, C> + Threshold<T, C>>(p: &P, s: &StripedScores<T, C>, ts: &[T]) -> Probe<T> {
     Probe {
         max: p.max(s),
-        argmax: p.argmax(s).map(|m| (m.row, m.col)),
+        argmax: if SKIP_ARGMAX.with(|x| x.get()) { scalar_argmax(s) } else { p.argmax(s).map(|m| (m.row, m.col)) },
         thresholds: ts.iter().map(|&t| cfgs::coords_to_pairs(p.threshold(s, t))).collect(),
     }
 }
@@ -227,6 +227,23 @@ thread_local! {
     /// score matrix of a sequence whose length is not a multiple of the column count: the cells past max_index
     /// are cells of the matrix all the same (the statement quantifies over cells).
     static SHORT: std::cell::Cell<bool> = const { std::cell::Cell::new(false) };
+    /// When set, arg-max is not asked of the library (the 8-bit AVX2 arg-max states its limit of 65535 rows with
+    /// a panic); maximum and thresholding, which have no such limit, are still probed.
+    static SKIP_ARGMAX: std::cell::Cell<bool> = const { std::cell::Cell::new(false) };
+}
+
+/// Scalar arg-max of the stored cells (stands in for the library's answer when SKIP_ARGMAX is set).
+fn scalar_argmax<T: El, C: PositiveLength>(s: &StripedScores<T, C>) -> Option<(usize, usize)> {
+    let mut best: Option<(usize, usize, T)> = None;
+    for r in 0..s.matrix().rows() {
+        for c in 0..C::USIZE {
+            let v = s.matrix()[r][c];
+            if best.map_or(true, |b| v > b.2) {
+                best = Some((r, c, v));
+            }
+        }
+    }
+    best.map(|b| (b.0, b.1))
 }
 
 fn build<T: El, C: PositiveLength>(plan: &Plan<T>, bg: &dyn Fn(usize, usize, usize, usize, usize) -> T) -> (StripedScores<T, C>, Vec<T>) {
@@ -267,7 +284,7 @@ where
     let back = |o: usize| (o % rows.max(1), o / rows.max(1));
     Probe {
         max: s.max(),
-        argmax: s.argmax().map(back),
+        argmax: if SKIP_ARGMAX.with(|x| x.get()) { scalar_argmax(s) } else { s.argmax().map(back) },
         thresholds: ts.iter().map(|&t| s.threshold(t).into_iter().map(back).collect()).collect(),
     }
 }
@@ -639,7 +656,7 @@ pub fn run(ctx: &mut Ctx, rep: &mut Report) {
         rep.space(
             "tall",
             "matrices of 32 767 .. 65 535 rows (16-bit row counters of the vector arg-max kernels; quick: 32 769 and 65 535 rows): element type {f32,u8} x 32-column configurations {generic, sse2, avx2, dispatcher arms, StripedScores API under each arm} \
-             x maximum planted at rows {0, 32767, 32768, last} x columns {0, 15, 16, 31}; same oracle as planted",
+             x maximum planted at rows {0, 32767, 32768, last} x columns {0, 15, 16, 31}; plus 65 537 rows (one more than the stated limit of the 8-bit vector arg-max) for maximum and thresholding only; same oracle as planted",
         );
         let rows_menu: Vec<usize> = if ctx.quick() { vec![32769, 65535] } else { vec![32767, 32768, 32769, 40000, 65535] };
         let mut cfgs_ = vec![MCfg::Gen(32), MCfg::Sse(32), MCfg::Avx];
@@ -675,6 +692,23 @@ pub fn run(ctx: &mut Ctx, rep: &mut Report) {
                 break;
             }
         }
+        // one row more than the 16-bit limit of the vector arg-max: maximum and thresholding only
+        SKIP_ARGMAX.with(|x| x.set(true));
+        for &(r, c) in &[(0usize, 3usize), (65535, 16), (65536, 3), (65536, 31)] {
+            let idx = base;
+            base += 1;
+            if !ctx.mine(idx) {
+                continue;
+            }
+            let rows = 65537;
+            let pf = Plan::<f32> { rows, background: 1, planted: vec![(r, c, peak_f32(1))] };
+            let pu = Plan::<u8> { rows, background: 1, planted: vec![(r, c, peak_u8(1))] };
+            for &cfg in &cfgs_ {
+                check_plan(&pf, cfg, &[peak_f32(1), -4.0], rep);
+                check_plan(&pu, cfg, &[peak_u8(1), 200], rep);
+            }
+        }
+        SKIP_ARGMAX.with(|x| x.set(false));
     }
     if ctx.wants("tail") {
         rep.space(
